@@ -3,10 +3,65 @@ import LitexProofs.Csr.Fields
 import LitexProofs.Csr.Array
 import LitexProofs.Csr.Gather
 import LitexProofs.Csr.Sram
+import LitexProofs.Csr.Glue
+import LitexProofs.Csr.Scan
+import LitexProofs.Csr.Auto
 /-
   C12 — CSR banks give software exact, side-effect-free register semantics.
 
-  `c : BankCfg` is an arbitrary bank: any bus width `bw`, ordering, page size `2^pbits`, bank number and ANY list
+  INVENTORY of the anchor files against the model (csr_eventmanager.py belongs to C15).  "tie" = how the model function is
+  compared with the real code on every run (A/B = co-exploration / co-simulation of real netlists, C = Python-level
+  differential in harness/props/c12.py).
+
+  csr.py                                   | model (LitexModel/Csr/…)               | theorems here                      | tie
+  -----------------------------------------+----------------------------------------+------------------------------------+-----------
+  _CSRBase (size, name, n, fixed)          | RegSpec.size/.fixed (names: C14)       | sorted_items*                      | C sort
+  CSRConstant (value, n, read)             | ObjDesc.consts, GItem, scanConstants   | scan_constants_complete, gather_*  | C scan, members
+  CSR (r/re/w/we, combinational strobes)   | Kind.raw, regOut, wordVal              | raw_strobes_exact                  | A/B bank
+  CSRAccess, CSRField (size/offset/reset/  | FieldDecl, FieldSpec, resolveFields,   | field_offsets, field_overlap_      | C fields,
+    pulse/access; description/values are   |   fieldsSize, fieldsReset, fieldOut,   |   rejected, field_values, pulse_   |   access,
+    documentation only: no behaviour)      |   Access, resolveAccess, checkNames     |   field_one_cycle, field_access_*, |   A/B bank
+  CSRFieldAggregate (check_names, check_   |                                        |   field_names_unique               |
+    ordering_overlap, get_size, get_reset, |                                        |                                    |
+    access resolution)                     |                                        |                                    |
+  CSRStatus (status, fields → status       | Kind.status, statusOfFields, wordVal,  | bank_read_next_cycle, read_strobe_ | A/B bank,
+    slices, we/re, read_only=False → r,    |   regNext (.status), regOut            |   exact, status_write_exact,       |   directed
+    reset)                                 |                                        |   status_fields_bits               |   status reset
+  CSRStorage (storage, reset, fields,      | Kind.storage, initReg, devVal, regNext,| bank_write_exact, bank_atomic_*,   | A/B bank
+    atomic_write back-store, write_from_   |   backPairs, isAtomic, fieldOut        |   strobe_*, storage_reset,         |
+    dev we/dat_w, re, reset_less: sim-     |                                        |   bus_write_overrides_device_write,|
+    identical)                             |                                        |   storage_in_range                 |
+  do_finalize (word split, big/little)     | simpleCsrs, wordOrder, lastWord, addrOf| addresses_injective, decode_exact  | C layout
+  csrprefix/memprefix, _make_gatherer,     | GItem (path/name/duid), gatherOrder,   | gather_creation_order, gather_     | C gather,
+    AutoCSR.get_csrs/get_memories/         |   gatherSorted                         |   names_injective, gather_sorted_  |   members
+    get_constants (nested, prefix once,    |                                        |   fixed                            |
+    DUID order, autocsr_exclude)           |                                        |                                    |
+  _sort_gathered_items                     | sortGathered                           | sorted_items, sorted_items_partial | C sort
+  GenericBank                              | simpleCsrs                             | (layout lemmas)                    | C layout
+  read()/write() simulation helpers        | — (simulation-only; directed check     | —                                  | C sim helpers
+                                           |   under the real run_simulation)       |                                    |
+
+  csr_bus.py                               |                                        |                                    |
+  -----------------------------------------+----------------------------------------+------------------------------------+-----------
+  Interface (data/address width), like     | IfW, IfW.like, IfW.clip                | interface_like_carries_widths      | C glue
+  Interface.write/read helpers             | — (see above)                          | —                                  | C sim helpers
+  Interconnect, InterconnectShared         | GlueCfg, slaveBus, viaInter, glueArray | glue_transparent*, glue_access_    | A/B glue*,
+                                           |                                        |   reaches_exactly_addressed_bank,  |   socglue*
+                                           |                                        |   glue_no_alias                    |
+  SRAM (word/page addressing, read_only,   | SramCfg, sram, sramDatR, pageBits,     | sram_* (6), sram_paged_address,    | A/B sram*
+    init, sub-word staging, _page)         |   portAdr, clampAdr                    |   sram_staging_order_any_ratio     |
+  CSRBank (sel, decode, registered mux)    | BankCfg, bank                          | all "bank_*" theorems              | A/B bank*
+  CSRBankArray.scan (registers + memories  | ObjDesc, MemDesc, scan, pageReg,       | scan_banks, scan_keeps_registers,  | C scan,
+    + constants, address_map, get_buses)   |   objSlots, scanConstants              |   scan_page_link, scan_constants_  |   A/B via-scan
+                                           |                                        |   complete                         |
+  SoCCSRHandler.n_locs / SoC.do_finalize   | csrNLocs, socGlue                      | soc_locations                      | C glue, B socglue*
+    (soc.py glue)                          |                                        |                                    |
+
+  Not modelled: out-of-window SRAM accesses (simulator clamps the index: unspecified), exported names/addresses (C14),
+  `description`/`values` of fields (documentation), `reset_less` (no reset pin in this simulation model).
+-/
+/-
+  Notation.    `c : BankCfg` is an arbitrary bank: any bus width `bw`, ordering, page size `2^pbits`, bank number and ANY list
   of registers (storages with/without atomic write and device write, statuses, raw CSRs, any sizes).
   `s : BankState` is an arbitrary state (in particular every state reached by any history of bus accesses and
   device-side updates), `i : BankIn` an arbitrary cycle input: bus `adr/re/we/dat_w` plus the device-side inputs
@@ -712,5 +767,358 @@ example :
     (m.out (m.run [abus 8 false 0]) (abus 0 false 0)).datR = 0x11 ∧
     (m.out (m.run [abus 40 false 0]) (abus 0 false 0)).datR = 0 ∧
     (m.out (m.run [abus 26 true 0x5A, abus 16 false 0, abus 26 false 0]) (abus 0 false 0)).datR = 0x5A := by decide
+
+/-! ## The bus glue: `Interface` widths, `Interface.like`, `Interconnect`, `InterconnectShared`, SoC locations
+
+`g : GlueCfg` = master interfaces, the intermediate interface `Interface.like(masters[0])`, slave interfaces and the
+bank array, each interface with its own address/data width (assignments truncate).  `g.Uniform w`: all of them have
+the widths `w` (what `SoC.do_finalize` builds: every interface gets the handler's `address_width`/`data_width`). -/
+
+/-- `Interface.like` carries BOTH widths of the interface it copies. -/
+theorem interface_like_carries_widths (w : IfW) : IfW.like w = w := IfW.like_eq w
+
+/-- **The glue is transparent** for every address and data width: whatever the masters drive (values that fit their
+    interfaces), every slave sees exactly the OR of the master signals — no address bit is lost on the way. -/
+theorem glue_transparent (g : GlueCfg) (w : IfW) (hu : g.Uniform w) (hk : g.kind = .shared) (ms : List Bus)
+    (hl : ms.length = g.masters.length) (hb : ∀ b ∈ ms, b.adr < 2 ^ w.aw ∧ b.datW < 2 ^ w.dw) :
+    g.slaveBus ms = orBus ms := g.slaveBus_shared w hu hk ms hl hb
+
+theorem glue_transparent_direct (g : GlueCfg) (w : IfW) (hu : g.Uniform w) (hk : g.kind = .direct) (b : Bus)
+    (ms : List Bus) (hl : (b :: ms).length = g.masters.length)
+    (hb : ∀ x ∈ b :: ms, x.adr < 2 ^ w.aw ∧ x.datW < 2 ^ w.dw) : g.slaveBus (b :: ms) = b :=
+  g.slaveBus_direct w hu hk b ms hl hb
+
+/-- Why the intermediate interface must carry the address width (negative witness on the model's `viaInter`): with a
+    15-bit CSR address space and 2 KiB pages, an intermediate interface of only 14 address bits delivers the write to
+    bank 33 (address 33·512) at address 1·512, i.e. to bank 1; `Interface.like` of the 15-bit master does not. -/
+example :
+    let w : IfW := { aw := 15, dw := 8 }
+    let b : Bus := { adr := 33 * 512, re := false, we := true, datW := 5 }
+    (viaInter { aw := 14, dw := 8 } w b).adr = 1 * 512 ∧ (viaInter (IfW.like w) w b).adr = 33 * 512 := by decide
+
+/-- The banks of an array sit at pairwise different locations (`SoCCSRHandler` hands out each location once). -/
+def DistinctLocs (a : ArrayCfg) : Prop :=
+  ∀ j j', j < a.banks.length → j' < a.banks.length → j ≠ j' →
+    (a.banks.getD j default).address ≠ (a.banks.getD j' default).address
+
+/-- A bank that is not selected behaves as in a bus-idle cycle: no strobe, back-store unchanged, value changed at most
+    by the register's own device-side write. -/
+theorem bank_unselected_no_effect (c : BankCfg) (s : BankState) (i : BankIn) (k : Nat) (hk : k < c.regs.length)
+    (hkind : (c.spec k).kind ≠ .raw) (h : c.sel i.bus.adr = false) :
+    let r' := ((bank c).next s i).reg k
+    r'.re = false ∧ r'.back = (s.reg k).back ∧
+    r'.val = (if (c.spec k).kind = .storage then devVal (c.spec k) (s.reg k) (i.devOf k) else (s.reg k).val) := by
+  have hnone : (if i.bus.we then c.hitReg i.bus.adr k else none) = none := by
+    have : c.hitReg i.bus.adr k = none := by simp [BankCfg.hitReg, BankCfg.hit, h]
+    simp [this]
+  intro r'
+  have : r' = regNext c.bw (c.spec k) (s.reg k) none i.bus.datW (i.devOf k) := by
+    simp only [r', next_reg c s i k hk, hnone]
+  rw [this]
+  unfold regNext
+  cases hkd : (c.spec k).kind <;> simp_all
+
+/-- **An access through the glue reaches exactly the addressed bank's register and no other** — for every address
+    width `w.aw`, page size `2^p` words and every location below `2^(w.aw-p)` (= `n_locs`, see `soc_locations`):
+    master 0 accesses word `wd` of register `k` of bank `j` while the other masters idle.  Then (1) every bank sees
+    exactly that access on its bus (so all single-bank theorems above apply to it), (2) bank `j` decodes it to the
+    addressed word, and (3) no other bank is selected (hence keeps its registers, produces no strobe and drives 0:
+    `bank_unselected_no_effect`, `bank_unselected_zero`). -/
+theorem glue_access_reaches_exactly_addressed_bank (g : GlueCfg) (w : IfW) (hu : g.Uniform w) (hk : g.kind = .shared)
+    (p : Nat) (hpb : ∀ j, j < g.array.banks.length → (g.array.banks.getD j default).pbits = p)
+    (hdist : DistinctLocs g.array) (hp : p ≤ w.aw)
+    (s : ArrayState) (i : ArrayIn) (b : Bus) (n : Nat) (hi : i.masters = b :: List.replicate n zeroBus)
+    (hn : n + 1 = g.masters.length) (hdat : b.datW < 2 ^ w.dw)
+    (j k wd : Nat) (hj : j < g.array.banks.length)
+    (hfit : (g.array.banks.getD j default).Fits) (hv : (g.array.banks.getD j default).ValidWord k wd)
+    (hloc : (g.array.banks.getD j default).address < 2 ^ (w.aw - p))
+    (hadr : b.adr = (g.array.banks.getD j default).wordAdr k wd) :
+    (∀ j', j' < g.array.banks.length →
+        ((glueArray g).next s i).banks.getD j' default =
+          (bank (g.array.banks.getD j' default)).next (s.banks.getD j' default)
+            { bus := b, dev := i.dev.getD j' [] }) ∧
+    (g.array.banks.getD j default).hit b.adr = some ((g.array.banks.getD j default).simple k wd) ∧
+    (∀ j', j' < g.array.banks.length → j' ≠ j → (g.array.banks.getD j' default).sel b.adr = false) := by
+  have hpj := hpb j hj
+  have hlt : b.adr < 2 ^ w.aw := by
+    rw [hadr]
+    exact BankCfg.wordAdr_lt _ k wd w.aw hfit hv (by rw [hpj]; exact hp) (by rw [hpj]; exact hloc)
+  have hsb : g.slaveBus i.masters = b := by
+    rw [hi, g.slaveBus_shared w hu hk _ (by simp; omega) (by
+      intro x hx
+      rcases List.mem_cons.mp hx with rfl | hx
+      · exact ⟨hlt, hdat⟩
+      · rw [List.eq_of_mem_replicate hx]
+        exact ⟨Nat.two_pow_pos _, Nat.two_pow_pos _⟩)]
+    exact orBus_cons_zero b n
+  refine ⟨fun j' hj' => by rw [glue_next_bank g s i j' hj', hsb], ?_, ?_⟩
+  · rw [hadr]; exact BankCfg.hit_wordAdr _ k wd hfit hv
+  · intro j' hj' hne
+    have hd := (BankCfg.wordAdr_div _ k wd hfit hv).1
+    unfold BankCfg.sel
+    rw [hpb j' hj', hadr, ← hpj, hd]
+    simp only [beq_eq_false_iff_ne]
+    exact fun h => hdist j' j hj' hj hne h.symm
+
+/-- **No aliasing**: two accesses that reach the same word of the same register of a bank carry the same address —
+    so (with `glue_transparent`) no two different master addresses below `2^aw` ever reach one register word, and
+    (by `glue_access_reaches_exactly_addressed_bank`) one address never reaches two banks. -/
+theorem glue_no_alias (c : BankCfg) (adr adr' : Nat) (sc sc' : Simple)
+    (h : c.hit adr = some sc) (h' : c.hit adr' = some sc') (hr : sc.reg = sc'.reg) (hw : sc.word = sc'.word) :
+    adr = adr' := by
+  obtain ⟨k, j, hv, hsc, ha⟩ := c.hit_inv adr sc h
+  obtain ⟨k', j', hv', hsc', ha'⟩ := c.hit_inv adr' sc' h'
+  have hk : k = k' := by rw [hsc, hsc', c.simple_reg, c.simple_reg] at hr; exact hr
+  have hj : j = j' := by rw [hsc, hsc', c.simple_word k j hv, c.simple_word k' j' hv'] at hw; exact hw
+  rw [ha, ha', hk, hj]
+
+/-- **Locations of a SoC** (`SoCCSRHandler`: `n_locs = alignment//8 * 2**address_width // paging`, 32-bit alignment,
+    `paging = 4·2^p`): there are exactly `2^(aw-p)` locations, and every word of a bank at a location `< n_locs` has a
+    bus address that fits the `aw` address bits — the range in which the theorem above holds is the whole range the SoC
+    hands out. -/
+theorem soc_locations (aw p : Nat) (hp : p ≤ aw) :
+    csrNLocs 32 aw (4 * 2 ^ p) = 2 ^ (aw - p) ∧
+    ∀ loc word, loc < csrNLocs 32 aw (4 * 2 ^ p) → word < 2 ^ p → loc * 2 ^ p + word < 2 ^ aw := by
+  refine ⟨csrNLocs_eq aw p hp, fun loc word hl hw => ?_⟩
+  rw [csrNLocs_eq aw p hp] at hl
+  exact loc_adr_lt aw p loc word hp hl hw
+
+/-! Non-vacuity: 15 address bits, 2 KiB pages, banks at locations 1 and 33 behind `InterconnectShared`: a write to bank
+    33 changes bank 33's register only; reading it back returns the value; bank 1 reads its own. -/
+def demoGlue : GlueCfg :=
+  { kind := .shared, masters := [{ aw := 15, dw := 8 }], slave := { aw := 15, dw := 8 },
+    array := { banks := [{ bw := 8, ord := .big, pbits := 9, address := 1, regs := [{ kind := .storage, size := 8, reset := 0x11 }] },
+                          { bw := 8, ord := .big, pbits := 9, address := 33, regs := [{ kind := .storage, size := 8, reset := 0x22 }] }],
+               srams := [] } }
+
+example : demoGlue.Uniform { aw := 15, dw := 8 } := ⟨by decide, by decide, rfl⟩
+example : DistinctLocs demoGlue.array := by
+  intro j j' hj hj' hne
+  have h2 : demoGlue.array.banks.length = 2 := rfl
+  rw [h2] at hj hj'
+  match j, j', hj, hj' with
+  | 0, 0, _, _ => exact absurd rfl hne
+  | 0, 1, _, _ => decide
+  | 1, 0, _, _ => decide
+  | 1, 1, _, _ => exact absurd rfl hne
+example :
+    let m := glueArray demoGlue
+    let s := m.run [abus (33 * 512) true 0x5A]
+    ((s.banks.getD 0 default).reg 0).val = 0x11 ∧ ((s.banks.getD 1 default).reg 0).val = 0x5A ∧
+    (m.out (m.run [abus (33 * 512) true 0x5A, abus (33 * 512) false 0]) (abus 0 false 0)).datR = 0x5A ∧
+    (m.out (m.run [abus (33 * 512) true 0x5A, abus (1 * 512) false 0]) (abus 0 false 0)).datR = 0x11 := by decide
+
+/-! ## `CSRBankArray.scan`: from objects to banks, memory windows and constants -/
+
+/-- The banks are exactly the objects with a non-empty description (gathered registers + page registers of their
+    memories), in scan order, each at its own location. -/
+theorem scan_banks (bw : Nat) (ord : WordOrdering) (pbits : Nat) (objs : List ObjDesc) :
+    (scan bw ord pbits objs).banks =
+      (objs.filter fun o => !(objRegs bw pbits o).isEmpty).map (objBank bw ord pbits) :=
+  scanFrom_banks bw ord pbits objs 0
+
+/-- **Memories never drop or displace registers**: every object that has registers gets a bank at its location whose
+    description starts with exactly those registers (register `k` of the object is register `k` of the bank), followed
+    by the page registers of its memories. -/
+theorem scan_keeps_registers (bw : Nat) (ord : WordOrdering) (pbits : Nat) (objs : List ObjDesc) (o : ObjDesc)
+    (ho : o ∈ objs) (hr : o.regs ≠ []) :
+    ∃ c ∈ (scan bw ord pbits objs).banks, c.address = o.loc ∧ c.regs = o.regs ++ pageRegs bw pbits o.mems ∧
+      ∀ k, k < o.regs.length → c.regs[k]? = o.regs[k]? := by
+  refine ⟨objBank bw ord pbits o, ?_, rfl, rfl, fun k hk => ?_⟩
+  · rw [scan_banks]
+    refine List.mem_map.mpr ⟨o, List.mem_filter.mpr ⟨ho, ?_⟩, rfl⟩
+    cases h : o.regs with
+    | nil => exact absurd h hr
+    | cons x xs => simp [objRegs, h]
+  · show (o.regs ++ _)[k]? = _
+    exact List.getElem?_append_left hk
+
+/-- **Page links**: a memory window that spans more than one page points at a storage register of exactly `pageBits`
+    bits in an existing bank (the bank of its own object). -/
+theorem scan_page_link (bw : Nat) (ord : WordOrdering) (pbits : Nat) (objs : List ObjDesc) (slot : SramSlot)
+    (b r : Nat) (hs : slot ∈ (scan bw ord pbits objs).srams) (hp : slot.page = some (b, r)) :
+    slot.cfg.pageBits ≠ 0 ∧
+    ((scan bw ord pbits objs).banks[b]?).bind (fun c => c.regs[r]?) =
+      some { kind := .storage, size := slot.cfg.pageBits } := by
+  obtain ⟨_, hz, h⟩ := scanFrom_page bw ord pbits objs 0 slot b r hs hp
+  exact ⟨hz, by simpa [scan] using h⟩
+
+/-- Non-vacuity: an object with two registers and a 4x8 memory on 2-word pages (one page bit), then a memory-only
+    object: one bank `[r0, r1, page]` at location 33, the first window paged by register 2 of bank 0. -/
+example :
+    let objs : List ObjDesc :=
+      [{ regs := [{ kind := .storage, size := 1 }, { kind := .status, size := 1 }],
+         mems := [{ width := 8, depth := 4, readOnly := false, init := [], loc := 32 }], consts := [7], loc := 33 },
+       { regs := [], mems := [{ width := 8, depth := 2, readOnly := false, init := [3], loc := 63 }], consts := [], loc := 0 }]
+    let a := scan 8 .big 1 objs
+    a.banks.map (fun c => (c.address, c.regs.map (·.size))) = [(33, [1, 1, 1])] ∧
+    a.srams.map (fun m => (m.cfg.address, m.page)) = [(32, some (0, 2)), (63, none)] ∧
+    scanConstants 0 objs = [(0, 7)] := by decide
+
+/-! ## Constants, field access modes and names, status fields, reset values, device-write priority, gathering -/
+
+/-- Every constant of every object is collected exactly once, in scan order (`CSRBankArray.constants`). -/
+theorem scan_constants_complete (objs : List ObjDesc) (t : Nat) :
+    (scanConstants t objs).map (·.2) = objs.flatMap (·.consts) := by
+  induction objs generalizing t with
+  | nil => rfl
+  | cons o os ih => simp [scanConstants, List.flatMap_cons, ih (t + 1), Function.comp_def]
+
+/-- All fields of a `CSRStatus` end up `ReadOnly`. -/
+theorem field_access_status (fs : List FieldAcc) (as : List Access) (h : resolveAccess .readOnly fs = some as)
+    (k : Nat) (a : Access) (hk : as[k]? = some a) : a = .readOnly := by
+  have hlen := resolveAccess_length _ fs as h
+  have hkl : k < fs.length := by rw [← hlen]; exact (List.getElem?_eq_some_iff.mp hk).1
+  have := resolveAccess_getElem _ fs as k fs[k] h (List.getElem?_eq_getElem hkl)
+  rw [hk] at this
+  simp only [Option.bind_some] at this
+  unfold resolveAccess1 at this
+  cases hacc : fs[k].access with
+  | none => simp [hacc] at this; exact this
+  | some x =>
+    simp only [hacc] at this
+    split at this
+    · rename_i hc
+      simp only [Bool.and_eq_true, beq_iff_eq] at hc
+      rw [Option.some.inj this]; exact hc.2
+    · cases this
+
+/-- All fields of a `CSRStorage` end up `ReadWrite` or `WriteOnly`. -/
+theorem field_access_storage (fs : List FieldAcc) (as : List Access) (h : resolveAccess .readWrite fs = some as)
+    (k : Nat) (a : Access) (hk : as[k]? = some a) : a = .readWrite ∨ a = .writeOnly := by
+  have hlen := resolveAccess_length _ fs as h
+  have hkl : k < fs.length := by rw [← hlen]; exact (List.getElem?_eq_some_iff.mp hk).1
+  have := resolveAccess_getElem _ fs as k fs[k] h (List.getElem?_eq_getElem hkl)
+  rw [hk] at this
+  simp only [Option.bind_some] at this
+  unfold resolveAccess1 at this
+  cases hacc : fs[k].access with
+  | none => simp [hacc] at this; exact Or.inl this
+  | some x =>
+    simp only [hacc] at this
+    split at this
+    · rename_i hc
+      simp only [Bool.or_eq_true, beq_iff_eq] at hc
+      have := Option.some.inj this
+      by_cases hp : fs[k].pulse = true
+      · simp [hp] at this; exact Or.inr this
+      · simp [hp] at this; rw [this]; exact hc
+    · cases this
+
+/-
+  Full statement ("a pulse field of a storage is WriteOnly" — what `if field.pulse: field.access = WriteOnly` intends):
+
+  theorem field_access_pulse : resolveAccess .readWrite fs = some as → fs[k]? = some f → f.pulse = true → as[k]? = some .writeOnly
+
+  It FAILS for a pulse field declared without `access=` (the `if field.access is None` branch is taken and the `elif`
+  that rewrites pulse fields is skipped): negative witness below.  Proved for fields with an explicit access.
+-/
+theorem field_access_pulse_partial (fs : List FieldAcc) (as : List Access) (h : resolveAccess .readWrite fs = some as)
+    (k : Nat) (f : FieldAcc) (hf : fs[k]? = some f) (hp : f.pulse = true) (hexp : f.access ≠ none) :
+    as[k]? = some .writeOnly := by
+  have := resolveAccess_getElem _ fs as k f h hf
+  have hlen := resolveAccess_length _ fs as h
+  have hkl : k < as.length := by rw [hlen]; exact (List.getElem?_eq_some_iff.mp hf).1
+  rw [List.getElem?_eq_getElem hkl] at this ⊢
+  simp only [Option.bind_some] at this
+  unfold resolveAccess1 at this
+  cases hacc : f.access with
+  | none => exact absurd hacc hexp
+  | some x =>
+    simp only [hacc, hp, if_true] at this
+    split at this
+    · exact this
+    · cases this
+
+example : resolveAccess .readWrite [{ access := none, pulse := true }] = some [.readWrite] ∧
+    resolveAccess .readWrite [{ access := some .readWrite, pulse := true }] = some [.writeOnly] ∧
+    resolveAccess .readOnly [{ access := some .readWrite, pulse := false }] = none := by decide
+
+/-- `check_names` accepts exactly the field lists without a repeated name. -/
+theorem field_names_unique (ns : List Nat) : checkNames [] ns = true ↔ ns.Nodup := by
+  rw [checkNames_iff]; simp
+
+/-- **Status with fields**: bit `b` of the value a `CSRStatus(fields=…)` presents to the bus is the bit the field
+    covering `b` drives; bits outside every field read 0 (the reset composition is 0 there). -/
+theorem status_fields_bits (fs : List FieldSpec) (v b : Nat) :
+    (statusOfFields fs v).testBit b =
+      fs.any fun f => decide (f.offset ≤ b ∧ b < f.offset + f.size) && v.testBit b := by
+  induction fs with
+  | nil => simp [statusOfFields]
+  | cons f fs ih =>
+    simp only [statusOfFields, Nat.testBit_or, ih, List.any_cons, Nat.testBit_shiftLeft, testBit_slice]
+    congr 1
+    by_cases h1 : f.offset ≤ b
+    · by_cases h2 : b < f.offset + f.size
+      · have : b - f.offset < f.size := by omega
+        simp [h1, h2, this, Nat.add_sub_cancel' h1]
+      · have : ¬ (b - f.offset < f.size) := by omega
+        simp [h1, h2, this]
+    · simp [h1]
+
+/-- **Reset values**: after reset every storage holds its declared reset value (truncated to its size; for a storage
+    with fields the OR of the fields' resets at their offsets: `fieldsReset`), no strobe is active. -/
+theorem storage_reset (c : BankCfg) (k : Nat) (hk : k < c.regs.length) (hkind : (c.spec k).kind = .storage) :
+    (((bank c).run []).reg k).val = trunc (c.spec k).size (c.spec k).reset ∧ (((bank c).run []).reg k).re = false := by
+  show ((bank c).init.reg k).val = _ ∧ ((bank c).init.reg k).re = false
+  rw [init_reg c k hk]
+  simp [initReg, hkind]
+
+/-- **Bus write beats device write**: when the device (`we`/`dat_w` of a `write_from_dev` storage) and the bus write
+    the same one-word storage in the same cycle, the register takes the bus data — in any reachable state. -/
+theorem bus_write_overrides_device_write (c : BankCfg) (hfit : c.Fits) (hist : List BankIn) (i : BankIn) (k : Nat)
+    (hv : c.ValidWord k 0) (hkind : (c.spec k).kind = .storage) (h1 : (c.spec k).size ≤ c.bw)
+    (hwe : i.bus.we = true) (hadr : i.bus.adr = c.wordAdr k 0) :
+    (((bank c).run (hist ++ [i])).reg k).val = trunc (c.spec k).size i.bus.datW := by
+  have hna : isAtomic c.bw (c.spec k) = false := by
+    unfold isAtomic nwords
+    have : ((c.spec k).size + c.bw - 1) / c.bw < 2 := by
+      by_cases hb : c.bw = 0
+      · simp [hb]
+      · exact Nat.div_lt_of_lt_mul (by omega)
+    simp; intro _; omega
+  rw [run_snoc]
+  have hw := (bank_write_exact c hfit ((bank c).run hist) i k 0 hv hkind hna hwe hadr).1
+  have hwf := next_wf c _ i (run_wf c hist) k hv.1 hkind
+  have hnb : wordBits c.bw (c.spec k).size 0 = (c.spec k).size := by simp [wordBits]; omega
+  simp only [Nat.zero_mul, hnb, slice_zero] at hw
+  rw [← hw, trunc_of_lt hwf.1]
+
+/-- and when only the device writes, the register takes the device data. -/
+theorem device_write_alone (c : BankCfg) (s : BankState) (i : BankIn) (k : Nat) (hk : k < c.regs.length)
+    (hkind : (c.spec k).kind = .storage) (hwfd : (c.spec k).wfd = true) (hdev : (i.devOf k).we = true)
+    (hbus : i.bus.we = false) :
+    (((bank c).next s i).reg k).val = trunc (c.spec k).size (i.devOf k).dat := by
+  have hraw : (c.spec k).kind ≠ .raw := by rw [hkind]; decide
+  have := (bank_access_elsewhere_no_effect c s i k hk hraw (Or.inl hbus)).2.2
+  simp only [hkind, if_true] at this
+  rw [this]
+  simp [devVal, hwfd, hdev]
+
+/-- **Gathering** (`AutoCSR.get_csrs/get_memories/get_constants`): the result contains every item of every nested
+    module exactly once, in creation (DUID) order. -/
+theorem gather_creation_order (items : List GItem) :
+    (gatherOrder items).Perm items ∧ (gatherOrder items).Pairwise (fun a b => a.duid ≤ b.duid) :=
+  ⟨gatherOrder_perm items, gatherOrder_sorted items⟩
+
+/-- The gathered name (prefix path + own name, as token lists) determines the module path and the own name.
+    (As *strings* joined by "_" this is not injective — `a` → `b_c` and `a_b` → `c` collide; exported names are C14's.) -/
+theorem gather_names_injective (a b : GItem) (h : a.fullName = b.fullName) : a.path = b.path ∧ a.name = b.name := by
+  unfold GItem.fullName at h
+  have := List.append_inj' h rfl
+  exact ⟨this.1, by simpa using this.2⟩
+
+/-- `sort=True`: in the slot list, every item with a fixed location `n` sits in slot `n`; indices refer to the
+    DUID-ordered list. -/
+theorem gather_sorted_fixed (items : List GItem) (slots : List (Option Nat)) (h : gatherSorted items = .ok slots)
+    (i n : Nat) (hi : ((gatherOrder items)[i]?).map (·.fixed) = some (some n)) : slots[n]? = some (some i) := by
+  have := (sorted_items _ slots h).2.1 i n
+  apply this
+  simpa [List.getElem?_map] using hi
+
+example : (gatherOrder [{ duid := 7, path := [1], name := 0 }, { duid := 3, path := [], name := 1, fixed := some 2 },
+                        { duid := 5, path := [1, 2], name := 2 }]).map (·.duid) = [3, 5, 7] ∧
+    gatherSorted [{ duid := 7, path := [1], name := 0 }, { duid := 3, path := [], name := 1, fixed := some 2 },
+                  { duid := 5, path := [1, 2], name := 2 }] = .ok [some 1, some 2, some 0] := by decide
 
 end Litex.C12
